@@ -325,7 +325,8 @@ fn output_result_xml<T: serde::Serialize>(result: T) -> Result<()> {
                 '>' => escaped.push_str("&gt;"),
                 '&' => escaped.push_str("&amp;"),
                 '\0' => escaped.push('\u{FFFD}'), // not representable in XML at all
-                '\u{1}' ..= '\u{8}' | '\u{B}' | '\u{C}' | '\u{E}' ..= '\u{1F}' | '\u{7F}' ..= '\u{84}' | '\u{86}' ..= '\u{9F}' => {
+                // (a parser turns a literal CR, NEL or LINE SEPARATOR into LF: they only survive as references)
+                '\u{1}' ..= '\u{8}' | '\u{B}' ..= '\u{1F}' | '\u{7F}' ..= '\u{9F}' | '\u{2028}' => {
                     escaped.push_str(&format!("&#x{:X};", c as u32))
                 }
                 c => escaped.push(c),
